@@ -67,10 +67,11 @@ def latch_names(ctx: Ctx) -> dict:
     if base is not None:
         sa_ = base.methods.get("__setattr__")
         if sa_ is not None:
-            for n in nodes_in(sa_, ast.If):
-                if any(isinstance(x, ast.Raise) for s_ in n.body for x in ast.walk(s_)):
+            # the flag: the attribute of self that __setattr__ tests before it raises / stores
+            if any(isinstance(x, ast.Raise) for x in ast.walk(sa_.node)):
+                for n in nodes_in(sa_, ast.If):
                     for x in ast.walk(n.test):
-                        if isinstance(x, ast.Attribute) and isinstance(x.value, ast.Name) and x.value.id == sa_.positional[0]:
+                        if isinstance(x, ast.Attribute) and isinstance(x.value, ast.Name) and x.value.id == sa_.positional[0] and not x.attr.startswith("__"):
                             out["flag"] = x.attr
         for m in base.methods.values():
             for n in nodes_in(m, ast.Assign):
@@ -587,17 +588,21 @@ def c18_5(ctx: Ctx) -> RuleResult:
     for m in c.methods.values():
         if any("model_validator" in d and "wrap" in d for d in m.decorators) and m.positional:
             first = m.positional[0]
-            for n in nodes_in(m, ast.If):
-                t = n.test
-                if (
-                    isinstance(t, ast.Call) and dotted(t.func) == "isinstance" and len(t.args) == 2
-                    and isinstance(t.args[0], ast.Name) and t.args[0].id == first
-                    and dotted(t.args[1]) == c.name
-                    and n.body and isinstance(n.body[0], ast.Return)
-                    and isinstance(n.body[0].value, ast.Name) and n.body[0].value.id == first
-                ):
-                    ok = True
-                    site = (m, n)
+            from ..util import bool_nnf, path_condition
+
+            # a `return <value>` of the value itself that is reached exactly where `isinstance(value, EnOptConfig)` holds
+            for r_ in nodes_in(m, ast.Return):
+                if not (isinstance(r_.value, ast.Name) and r_.value.id == first):
+                    continue
+                pc = path_condition(ctx, m, r_)
+                if not pc:
+                    continue
+                g_ = bool_nnf(("bool", "and", tuple(c_ if p_ else ("unary", "not", c_) for c_, p_ in pc)))
+                for it in (g_[1] if g_[0] == "and" else [g_]):
+                    if (it[0] == "lit" and it[2] and it[1][0] == "call" and it[1][1] == ("builtin", "isinstance") and len(it[1][2]) == 2
+                            and it[1][2][0] == ("param", m.qualname, first) and it[1][2][1] == ("global", c.qualname)):
+                        ok = True
+                        site = (m, r_)
     res.add(site[0] if site else None, site[1] if site else c.node, "a wrap validator returns an EnOptConfig instance as is", ok,
             "" if ok else "no pass-through wrap validator", construct="EnOptConfig pass-through",
             where=None if site else f"{c.module.relpath}:{c.node.lineno}", fname=None if site else c.qualname)
